@@ -103,6 +103,13 @@ class Lst:
         self.items, self.loops, self.fam, self.broken, self.comp = [], loops, None, None, None
 
 
+class IterExpr:
+    """`pairs = zip(a, b)` - the iterable expression itself, evaluated by the `for` that walks it"""
+
+    def __init__(self, node):
+        self.node = node
+
+
 class BoundLst:
     """`push = acc.append`"""
 
@@ -256,6 +263,8 @@ def equalities(v, want=True):
         neg = False
         if u and u[0] in ("cmp:NotEq", "cmp:IsNot") and len(u[1]) == 2:
             x, neg = F.fn("cmp:Eq" if u[0] == "cmp:NotEq" else "cmp:Is", *u[1]), True
+        elif u and u[0] in ("cmp:Lt", "cmp:LtE") and len(u[1]) == 2 and const_int(u[1][0]) == (1 if u[0] == "cmp:Lt" else 2) and _set_len_items(u[1][1]) is not None:
+            x, neg = cmp_value("Eq", u[1][0] if u[0] == "cmp:Lt" else F.const(1), u[1][1]), True          # len({..}) > 1  is  not len({..}) == 1
         for i, (k, _) in enumerate(atoms):
             if same(k, x):
                 return i, neg
@@ -267,6 +276,10 @@ def equalities(v, want=True):
                 items = _set_len_items(a)
                 if items is not None and const_int(b) == 1:
                     pairs = list(zip(items, items[1:]))          # len({a, b, c}) == 1: all the same
+                ua = unfn(a)
+                if ua and ua[0] == "call:.count" and len(ua[1]) == 2 and unfn(ua[1][0]) and unfn(ua[1][0])[0] == "tuple" \
+                        and const_int(b) == len(unfn(ua[1][0])[1]):
+                    pairs = [(y, ua[1][1]) for y in unfn(ua[1][0])[1]]          # (a, b, c).count(x) == 3: every item is x
         atoms.append((x, pairs))
         return len(atoms) - 1, neg
 
@@ -333,6 +346,33 @@ def always_ends(stmts):
     if isinstance(last, ast.If):
         return always_ends(last.body) and always_ends(last.orelse)
     return False
+
+
+def local_names(fn):
+    """names the function binds somewhere in its own body (reading one before it is bound is an UnboundLocalError, not a global lookup)"""
+    out, free = set(), set()
+    stack = list(fn.body)
+    while stack:
+        n = stack.pop()
+        if isinstance(n, (ast.FunctionDef, ast.AsyncFunctionDef, ast.ClassDef)):
+            out.add(n.name)
+            continue
+        if isinstance(n, ast.Lambda):
+            continue
+        if isinstance(n, (ast.ListComp, ast.SetComp, ast.DictComp, ast.GeneratorExp)):
+            # the targets of a comprehension live in its own scope; walrus targets inside it do not
+            stack.extend(x for x in ast.walk(n) if isinstance(x, ast.NamedExpr))
+            continue
+        if isinstance(n, (ast.Global, ast.Nonlocal)):
+            free.update(n.names)
+        elif isinstance(n, ast.Name) and isinstance(n.ctx, (ast.Store, ast.Del)):
+            out.add(n.id)
+        elif isinstance(n, (ast.Import, ast.ImportFrom)):
+            out.update((a.asname or a.name).split(".")[0] for a in n.names)
+        elif isinstance(n, ast.ExceptHandler) and n.name:
+            out.add(n.name)
+        stack.extend(ast.iter_child_nodes(n))
+    return out - free
 
 
 def _empty_list(node):
@@ -447,6 +487,7 @@ class Interp(AutoEvaluator):
         self.exit = None            # how the block under evaluation was left (with self.done)
         self.loop_depth = 0
         self.maybe_base = 0
+        self.unbound = set()        # locals of the activation under evaluation (a read of one that is not in env yet cannot be a global)
         self.cont_raises = False    # the statements that follow the block under evaluation only raise
         self._raise_stack = []
         self.tag_conversions = False    # True: np.asarray / np.atleast_nd(x) is the value arr(x), not x
@@ -462,6 +503,7 @@ class Interp(AutoEvaluator):
             env.update(args)
         self.root_env = dict(env)
         self.env = env
+        self.unbound = local_names(fn) - set(env)
         self.run(fn.body)
         return self.returns[-1][0] if self.returns else None
 
@@ -581,9 +623,30 @@ class Interp(AutoEvaluator):
         if u and u[0] == "sel":
             rest = [s for s in u[1][1:] if same(s, ALL) or (unfn(s) and unfn(s)[0] == "slice")]
             return len(rest)
+        lt = self.linear_terms(v)
+        if lt is not None:
+            nds = {self.ndim_of(a) for _, a in lt}          # SAM + LAM: the rank of its terms
+            return nds.pop() if len(nds) == 1 else None
         if self.ndim_hook is not None:
             return self.ndim_hook(v, self)
         return None
+
+    @staticmethod
+    def linear_terms(v):
+        """[(coefficient, atom value)] of a value that is a sum of two or more array atoms (`SAM + LAM`), else None"""
+        if not is_rat(v):
+            return None
+        try:
+            if not v.d.is_const() or v.d.const_value() != 1 or len(v.n.t) < 2:
+                return None
+            out = []
+            for m, c in v.n.t.items():
+                if len(m) != 1 or m[0][1] != 1:
+                    return None
+                out.append((c, F.Rat(F.Poly.atom(m[0][0]))))
+            return out
+        except Exception:  # noqa
+            return None
 
     def as_perm(self, v):
         """(underlying value, axis permutation) of a transposed / moved-axes view; `.T` of a matrix is the permutation (1, 0)"""
@@ -599,6 +662,10 @@ class Interp(AutoEvaluator):
         sh = self.shape_of(v)
         if sh is not None:
             return sh[i]
+        lt = self.linear_terms(v)
+        if lt is not None:
+            v = sorted((a for _, a in lt), key=repr)[0]         # X + Y has the extents of its terms
+            return self.dim(v, i)
         return F.fn("call:len", v) if i == 0 else F.fn("idx", F.fn("attr:shape", v), F.const(i))
 
     def shape_of(self, v):
@@ -755,6 +822,15 @@ class Interp(AutoEvaluator):
                 return None
             return gv
         under, sels, rest = c
+        lt = self.linear_terms(under) if not store else None
+        if lt is not None and (rest is None or rest == sorted(rest)):
+            # (X + Y)[:, j, :] is X[:, j, :] + Y[:, j, :]
+            parts = [self._select(a_, list(sels), node, False, view=view) for _, a_ in lt]
+            if all(is_rat(p_) for p_ in parts):
+                tot = F.const(0)
+                for (c_, _), p_ in zip(lt, parts):
+                    tot = tot + F.const(c_) * p_
+                return tot
         a = self.arr_of(under)
         if store:
             self._log("store", arr=a.id if a else None, base=under, sel=sels, ix=None, value=value, node=node)
@@ -783,6 +859,8 @@ class Interp(AutoEvaluator):
                 if isinstance(v, Lst):
                     return self._lst_value(v)
                 return v if self.as_base else self._deref(v)
+            if node.id in self.unbound:
+                return Unknown(f"local `{node.id}` is read before it is bound")
             if node.id in self.consts:
                 return self._const(node.id)
             return super()._ev(node)
@@ -818,6 +896,13 @@ class Interp(AutoEvaluator):
             if is_unknown(base):
                 return base
             ub = unfn(base)
+            if ub and ub[0] == "idx" and unfn(ub[1][1]) and unfn(ub[1][1])[0] == "slice" and not isinstance(node.slice, (ast.Slice, ast.Tuple)):
+                ci = const_int(self.ev(node.slice))
+                if ci is not None and ci >= 0:
+                    w = self._item(base, ci)                # S[3:][0] is S[3]
+                    uw = unfn(w)
+                    if uw and uw[0] == "idx" and not same(uw[1][0], base):
+                        return self._select(uw[1][0], [uw[1][1]], node, False)
             if ub and ub[0] == "attr:shape" and not isinstance(node.slice, (ast.Slice, ast.Tuple)):
                 ci = const_int(self.ev(node.slice))
                 if ci is not None and ci >= 0:
@@ -1006,6 +1091,8 @@ class Interp(AutoEvaluator):
     # ------------------------------------------------------------------ comprehensions and iteration
     def _iter_spec(self, it):
         """('unroll', [values]) or ('sym', domain, element function of the index value)"""
+        if isinstance(it, ast.Name) and isinstance(self.env.get(it.id), IterExpr):
+            return self._iter_spec(self.env[it.id].node)
         if isinstance(it, ast.Call) and (dotted(it.func) in ("np.arange", "numpy.arange") or (isinstance(it.func, ast.Name) and it.func.id not in self.env)):
             nm = "range" if dotted(it.func) in ("np.arange", "numpy.arange") else it.func.id
             if nm == "range" and not it.keywords and 1 <= len(it.args) <= 3:
@@ -1543,15 +1630,17 @@ class Interp(AutoEvaluator):
         self.env, self.returns, self.done, self.maybe_returns, self.raised = env, [], False, [], False
         self.depth += 1
         frame, self.frame = self.frame, object()
-        outer = (self.exit, self.loop_depth, self.maybe_base, self.cont_raises)
+        outer = (self.exit, self.loop_depth, self.maybe_base, self.cont_raises, self.unbound)
         self.exit, self.loop_depth, self.maybe_base, self.cont_raises = None, 0, self.maybe, False       # the callee's own returns are definite for the callee
+        # the callee's own locals; a closure also sees the (still unbound) locals of the frame that defined it
+        self.unbound = (local_names(fn) - set(bound)) | ((self.unbound - set(bound)) if target.frame is frame else set())
         try:
             self.run(fn.body)
             rets, mrets = self.returns, self.maybe_returns
         finally:
             self.depth -= 1
             self.frame = frame
-            self.exit, self.loop_depth, self.maybe_base, self.cont_raises = outer
+            self.exit, self.loop_depth, self.maybe_base, self.cont_raises, self.unbound = outer
             self.env, self.returns, self.done, self.maybe_returns, self.raised = saved
         if mrets:
             # returns under tests nobody decides (and that could not be merged into one value): some object the rule knows nothing about
@@ -1572,6 +1661,10 @@ class Interp(AutoEvaluator):
         if isinstance(st, ast.Expr):
             if isinstance(st.value, ast.Call):
                 self.ev(st.value)
+            return
+        if isinstance(st, ast.Assign) and len(st.targets) == 1 and isinstance(st.targets[0], ast.Name) and isinstance(st.value, ast.Call) \
+                and isinstance(st.value.func, ast.Name) and st.value.func.id in ("zip", "enumerate", "reversed") and st.value.func.id not in self.env:
+            self.env[st.targets[0].id] = IterExpr(st.value)                # pairs = zip(...): walked by the loop that uses it
             return
         if isinstance(st, ast.Assign) and len(st.targets) == 1 and isinstance(st.targets[0], ast.Name) and _empty_list(st.value):
             self.env[st.targets[0].id] = Lst(tuple(self.loop_stack))        # `acc = []`: a list to be filled by append
@@ -1626,8 +1719,8 @@ class Interp(AutoEvaluator):
                     self._assign(t, x, st)
             elif is_rat(v) and not any(isinstance(t, ast.Starred) for t in target.elts[:-1]):
                 for i, t in enumerate(target.elts):
-                    if isinstance(t, ast.Starred):          # m, b, k, *rest = S
-                        self._assign(t.value, Unknown("starred rest of an unpacked value"), st)
+                    if isinstance(t, ast.Starred):          # m, b, k, *rest = S: the rest is S[3:]
+                        self._assign(t.value, F.fn("idx", v, F.fn("slice", F.const(i), NONE, NONE)), st)
                     else:
                         self._assign(t, self._item(v, i), st)
             elif isinstance(v, tuple) and sum(isinstance(t, ast.Starred) for t in target.elts) == 1 and len(v) >= n - 1:
@@ -1688,6 +1781,32 @@ class Interp(AutoEvaluator):
                 finally:
                     self._raise_stack.pop()
         return False
+
+    def _never_none(self, v):
+        u = unfn(v)
+        if not (u and u[0] in ("cmp:Is", "cmp:Eq") and len(u[1]) == 2):
+            return None
+        a, b = u[1]
+        x = b if same(a, NONE) else (a if same(b, NONE) else None)
+        if x is None:
+            return None
+        n_ = one_sym(x)
+        if self.arr_of(x) is not None:
+            return False                                    # an array object is not None
+        if n_ and "." in n_ and n_.split(".")[0] not in self.env and n_.split(".")[0] in set(self.imports) | set(self.imports.values()) | {"np", "la", "ode", "cb", "math"}:
+            return False                                    # la.inv, ode.SolveUnc ...: attributes of imported modules
+        return None
+
+    def decide(self, test):
+        r = super().decide(test)
+        if r is None:
+            self.quiet += 1
+            try:
+                v = self.ev(test)
+            finally:
+                self.quiet -= 1
+            r = truth(v, self._never_none)
+        return r
 
     def run(self, stmts):
         outer = self.cont_raises
@@ -1906,6 +2025,8 @@ class Interp(AutoEvaluator):
         """`while i > 0: i -= 1; ...` (i starts at n) or `while i >= 0: ...; i -= 1` (i starts at n - 1): n passes, each index of range(n) once
         -> (counter name, trip count value, body without the decrement, value of the counter afterwards) or None"""
         t = st.test
+        if isinstance(t, ast.Name):
+            t = ast.copy_location(ast.Compare(left=t, ops=[ast.NotEq()], comparators=[ast.copy_location(ast.Constant(value=0), t)]), t)      # while n:
         if st.orelse or not (isinstance(t, ast.Compare) and len(t.ops) == 1) or len(st.body) < 1:
             return None
         v = self.ev(t)
